@@ -10,6 +10,7 @@
 EXTENDS Heap, Json
 
 CONSTANTS MaxRefs,      \* bound on the number of cells
+          BuildRefs,    \* constructors are explored only while fewer cells than this exist (copies may go on to MaxRefs)
           MaxLen,       \* bound on list length
           OpsOn,        \* set of operation names explored
           ArgScalars,   \* scalar values used as arguments
@@ -121,7 +122,7 @@ CtorCands(h) ==
                                            \cup {<<v, w>> : v \in ArgScalars, w \in GoVals(h)}} ELSE {})
   \cup (IF "NewGoMap" \in OpsOn THEN {Op("NewGoMap", 0, 0, 0, None, vs, Z) : vs \in {Z} \cup {<<K(k), v>> : k \in 1..NKeys, v \in GoVals(h)}} ELSE {})
 
-Cands(h) == CtorCands(h)
+Cands(h) == (IF Len(h) < BuildRefs THEN CtorCands(h) ELSE {})
             \cup UNION {ListCands(h, r) \cup TFCands(h, r) : r \in ListsOf(h)}
             \cup UNION {ObjCands(h, r) \cup TFCands(h, r) : r \in ObjsOf(h)}
             \cup UNION {GoCands(h, g) : g \in GoOf(h)}
